@@ -22,6 +22,7 @@ import copy
 import json
 
 from .. import pool
+from ..core import gen_seed
 from ..worlds import frame as F
 from ..worlds import raw as W
 from . import C12prog
@@ -182,9 +183,9 @@ def gen_raw_program(rng, tier, ids_from=0, stem_prefix="r", with_fault=False, fr
             prog.append({"op": "r_from_data", "id": bid + 1, "ant": ant2, "el": el, "be": be, "in_stem": src["stem"],
                          "num_subblocks": rng.randint(1, be["W"] + 2), "listing": rng.choice(["sorted", "reverse", 7])})
             if rng.random() < 0.4:
-                prog[-1]["template_estimate"] = {"seed": rng.randrange(1 << 30), "factor": rng.choice([50, 200])}
+                prog[-1]["template_estimate"] = {"seed": gen_seed(rng), "factor": rng.choice([50, 200])}
             else:
-                prog.append({"op": "r_estimate", "id": bid + 1, "seed": rng.randrange(1 << 30), "factor": rng.choice([50, 200])})
+                prog.append({"op": "r_estimate", "id": bid + 1, "seed": gen_seed(rng), "factor": rng.choice([50, 200])})
             prog.append({"op": "r_record", "id": bid + 1, "stem": "%sinj%d" % (stem_prefix, bid), "num_blocks": rng.choice([1, 2, 9]),
                          "header": {"kind": "user", "cards": {}}, "digitize": rng.random() < 0.6, "template": rng.random() < 0.5})
     return prog, (ant, el, be)
